@@ -4,8 +4,9 @@
    graphs are valid dataflows).  The trace (ndjson, env TRACE):
 
      {"e":"term","id":P,"hand":bool,"expect":"ok"|"reject"|"","term":[stmts],"builders":["prod","sim"]}
-          the program: a HydroProg term (generated programs) or a hand-written program with its
-          stated expectation.  For a term, the expectation is computed HERE: WellTyped(term).
+          the program as a HydroProg term; the expectation is computed HERE: WellTyped(term).
+          Hand-written programs also state what their author expects ("ok" | "reject"): the typing
+          rules must agree with it.
      {"e":"prod","prog":P,"verdict":"ok"|"panic"|"panic-in-flow","build_verdict":..,"compiled":bool,
       "code":h,"build_code":h,"locs":[..],..}
           production builder: generate_embedded in the build script and again in the harness bin,
@@ -48,12 +49,16 @@ Consume == l <= Len(Rec) /\ l' = l + 1
 \* --- the program and what is expected of it
 TTerm ==
     /\ Ev.e = "term"
-    /\ LET wt == IF Ev.hand THEN Ev.expect = "ok" ELSE WellTyped(Ev.term)
-           why == IF Ev.hand THEN "" ELSE IllReason(Ev.term)
+    /\ LET wt == WellTyped(Ev.term)
+           why == IllReason(Ev.term)
        IN /\ exp' = Put(exp, Ev.id, IF wt THEN "ok" ELSE "reject")
           /\ need' = Put(need, Ev.id, SeqToSet(Ev.builders))
-          \* the generator of the terms must only produce well-typed ones
-          /\ bad' = IF ~Ev.hand /\ ~wt THEN {"TOOL:generated-term-is-not-well-typed:" \o why} ELSE {}
+          \* the generator of the terms must only produce well-typed ones; a hand-written program's
+          \* term must agree with what its author says about it (calibration of the typing rules)
+          /\ bad' = IF ~Ev.hand /\ ~wt THEN {"TOOL:generated-term-is-not-well-typed:" \o why}
+                    ELSE IF Ev.hand /\ (wt # (Ev.expect = "ok"))
+                    THEN {"TOOL:typing-rules-disagree-with-hand-written-program:" \o why}
+                    ELSE {}
           /\ stats' = [stats EXCEPT !.terms = @ + 1, !.welltyped = @ + (IF wt THEN 1 ELSE 0)]
     /\ cur' = Ev.id /\ facts' = {} /\ UNCHANGED seen
 
